@@ -1744,8 +1744,8 @@ fn unwrap_sum_ty(
     if !payload_ty.is_aggregate()
         && let Some(final_ty) = payload_ty.get_final_ty().into_real_type()
     {
-        assert!(!payload_ty.is_non_zero());
-
+        // note that the payload might be a pointer here (e.g. the `^i32` of `My_Error!^i32`,
+        // or an enum variant that holds a pointer). only *optionals* of pointers aren't tagged unions.
         Some(
             builder
                 .ins()
